@@ -1,9 +1,17 @@
 """C05 - peg-recovery fee bounded: structural clauses (DESIGN 6, C05)."""
 from ..callgraph import explore, site_guarded, call_sites
-from ..expr import show, find
+from ..expr import show, find, DEFAULT
 from .common import entry, variant_env, where
 from .hub_common import receive_handlers, subtree, Roles
 from .msgs import is_zero_const
+
+
+def _anc(v):
+    out = []
+    while v.parent is not None:
+        v = v.parent[0]
+        out.append(v)
+    return out
 
 
 def fee_sites(prog, world, sem, roles):
@@ -23,14 +31,18 @@ def fee_sites(prog, world, sem, roles):
             fee = world.ident(e.args[1], expand_ws=False)
             # the fee may be written `amount - min(..)` inside the threshold test, or `amount - fee` with fee = min(..) below the
             # threshold and zero otherwise: the non-zero alternative is what counts, and its own site is what must be guarded
-            alts = [a for a in (fee.args if fee.op == "phi" else (fee,)) if not is_zero_const(world.ident(a, expand_ws=False))]
+            alts = [a for a in (fee.args if fee.op == "phi" else (fee,)) if not is_zero_const(world.ident(a, expand_ws=False)) and a != DEFAULT]
             if len(alts) == 1:
                 fee = world.ident(alts[0], expand_ws=False)
             if fee.op == "call" and fee.info == "std::cmp::Ord::min":
                 has_fee = find(world.norm(fee, 0, False), lambda y: roles.role(y) == ("params", "peg_recovery_fee"))
                 if has_fee:
-                    gbb = fee.site[1] if fee.site is not None and fee.site[0] == vis.body.path else bb
-                    out.append((name, vis, bb, world.ident(e.args[0], expand_ws=False), fee, e, vs, gbb))
+                    gv, gbb = vis, bb
+                    if fee.site is not None:
+                        gvs = [v2 for v2 in vs if v2.body.path == fee.site[0] and (v2 is vis or any(a is vis for a in _anc(v2)))]
+                        if gvs:
+                            gv, gbb = gvs[0], fee.site[1]
+                    out.append((name, vis, bb, world.ident(e.args[0], expand_ws=False), fee, e, vs, (gv, gbb)))
     return out
 
 
@@ -49,14 +61,14 @@ def run(prog, world, sem, rep):
     expected = ["Bond", "Receive/Convert/bsei", "Receive/Convert/stsei", "Receive/Unbond/bsei"]
     if names != expected:
         rep.ob("C05.a", "fee sites", False, "fee-charging sites found %s, expected %s (a new or missing fee path must be classified)" % (names, expected))
-    for (name, vis, bb, nofee, fee, sub, vs, gbb) in sites:
+    for (name, vis, bb, nofee, fee, sub, vs, (gv, gbb)) in sites:
         # ---- C05.a
         def fp(f, resolve):
             if f[0] == "cmp" and f[1] == "Lt":
                 return roles.role(resolve(f[2])) == ("state", "bsei_exchange_rate") and roles.role(resolve(f[3])) == ("params", "er_threshold")
             return False
-        g, d = site_guarded(sem, vis, gbb, fp)
-        rep.ob("C05.a", "%s: fee only below the threshold" % name, g, d, where(vis.body, gbb), key="C05.a | %s" % name)
+        g, d = site_guarded(sem, gv, gbb, fp)
+        rep.ob("C05.a", "%s: fee only below the threshold" % name, g, d, where(gv.body, gbb), key="C05.a | %s" % name)
         # ---- C05.b
         a, b = [world.ident(x, expand_ws=False) for x in fee.args]
         cap = None
